@@ -323,6 +323,8 @@ def run_check(mod, tier, seed, replay_path=None):
     if not ok_regen:
         pr["ok"] = False
         pr["log"] = regen_log[-2000:] + "\n" + pr["log"]
+    elif "PIN-MISMATCH" in regen_log and not pr["ok"]:
+        pr["log"] = "\n".join(l for l in regen_log.split("\n") if l.startswith("PIN-MISMATCH")) + "\n" + pr["log"]
 
     corr = None
     corr_err = None
